@@ -634,6 +634,7 @@ fn corpus() -> Vec<Case> {
         m("directive @r(x: In) on INPUT_FIELD_DEFINITION\ninput In { n: In2 }\ninput In2 { a: Int @r }\ntype Query { a: Int }\n", "directive-recursion", "through-nested-input-field"),
         m("directive @r(x: Int @r) on ARGUMENT_DEFINITION\ntype Query { a: Int }\n", "directive-recursion", "self"),
         m("input In { k: String! v: Int }\ndirective @ar(i: In) on OBJECT\ntype Query @ar(i: {k: \"a\", zz: 1}) { a: Int }\n", "directive-args", "input-object-unknown-field(optional-field-omitted)"),
+        m("directive @d(a: Int) on OBJECT\ntype Query @d(a: 1, a: \"x\") { f: Int }\n", "directive-args", "duplicate-argument-second-ill-typed"),
         v("interface I { f: Int }\ntype Query implements I { f(x: Int! = 1): Int }\n"),
         v("directive @d(f: Float, i: ID, l: [Int]) on OBJECT\ntype Query @d(f: 1, i: 2, l: 3) { a: Int }\n"),
         v("interface A { a: A }\ninterface B implements A { a: B }\ntype Query implements B & A { a: Query }\n"),
